@@ -41,6 +41,9 @@ type cfg struct {
 	// grandchild URL are charged to G, C and P
 	Grand    bool
 	GrandMax int64
+	// GrandPct: the grandchild is an allocation_percentage of the child (itself possibly a
+	// percentage of the parent) instead of an own fixed window
+	GrandPct int64
 }
 
 func quotaYAML(c cfg) string {
@@ -66,7 +69,9 @@ func quotaYAML(c cfg) string {
 				sb.WriteString("        group_by_header: x-g\n")
 			}
 		}
-		if c.Grand {
+		if c.Grand && c.GrandPct > 0 {
+			fmt.Fprintf(&sb, "  - id: G\n    parent_id: C\n    filter:\n      url: h.com/c/g/*\n    strategy:\n      allocation_percentage: %d\n", c.GrandPct)
+		} else if c.Grand {
 			fmt.Fprintf(&sb, "  - id: G\n    parent_id: C\n    filter:\n      url: h.com/c/g/*\n    strategy:\n      fixed_window:\n        max: %d\n        interval: %d\n        interval_unit: second\n", c.GrandMax, c.W)
 		}
 	}
@@ -265,6 +270,13 @@ func (m *model) childMax() int64 {
 	return m.c.ChildMax
 }
 
+func (m *model) grandMax() int64 {
+	if m.c.GrandPct > 0 {
+		return (m.childMax()*m.c.GrandPct + 99) / 100
+	}
+	return m.c.GrandMax
+}
+
 func (m *model) Apply(ei int) string { return m.apply(m.alpha[ei]) }
 
 func (m *model) apply(e event) string {
@@ -320,7 +332,7 @@ func (m *model) apply(e event) string {
 	if e.target == "g" {
 		// three levels: the grandchild first, then each ancestor only if the level below had room
 		keys = append(keys, "G_default")
-		if !m.charge("G_default", m.c.GrandMax, now) {
+		if !m.charge("G_default", m.grandMax(), now) {
 			okAll = false
 		} else {
 			keys = append(keys, "C_default")
@@ -381,7 +393,7 @@ func (m *model) apply(e event) string {
 				max = m.childMax()
 			}
 			if strings.HasPrefix(k, "G_") {
-				max = m.c.GrandMax
+				max = m.grandMax()
 			}
 			if w.admitted > max {
 				return fmt.Sprintf("BOUND quota %s let %d requests through in one window, max %d", k, w.admitted, max)
@@ -443,6 +455,7 @@ func configs(thorough bool) []cfg {
 		{Name: "custom counter max2 W2 (costs 1 and 3)", Max: 2, W: 2, Custom: true},
 		// three levels
 		{Name: "parent max3 + child max2 + grandchild max1", Max: 3, W: 2, Child: true, ChildMax: 2, Grand: true, GrandMax: 1},
+		{Name: "parent max4 + child 50% + grandchild 50% of the child", Max: 4, W: 2, Child: true, ChildPct: 50, Grand: true, GrandPct: 50},
 		// a non-initial start state: 1100 other groups have been seen (more than any plausible
 		// internal bound on tracked groups up to 1024)
 		{Name: "flat grouped max1 W2, 1100 other groups seen", Max: 1, W: 2, Group: true, Prefill: 1100},
